@@ -26,10 +26,18 @@ pub const CAP: usize = 4;
 #[derive(Clone, Default)]
 pub struct RandomState;
 
+/// typed value cell for harness-supplied STACK storage (`vk_use_value_storage`).  CBMC treats `MaybeUninit<V>` (a union)
+/// as raw bytes: a value with padding bytes (CacheD's StoredValue) read back from such a cell has lost its constants, and
+/// with them the niche-encoded discriminant of the `Option<(K, V)>` that `remove` returns.  A typed `Option<V>` on the
+/// stack keeps them (measured: worker eviction through the real hook, out of memory -> 9 s symex).
+pub struct VCell<V>(Option<V>);
+impl<V> VCell<V> { pub const fn empty() -> Self { VCell(None) } }
+
 pub struct DashMap<K, V, S = RandomState> {
     used: *mut [u64; CAP],                 // 0 / 1 per slot
     keys: *mut [MaybeUninit<K>; CAP],
     vals: *mut [MaybeUninit<V>; CAP],
+    tvals: core::cell::Cell<*mut [VCell<V>; CAP]>,   // null unless the harness supplied typed stack cells
     lockp: *mut vs::LockState,
     lookupsp: *mut u64,
     _s: PhantomData<S>,
@@ -58,6 +66,16 @@ impl<K, V, S> DashMap<K, V, S> {
     fn vals(&self) -> &mut [MaybeUninit<V>; CAP] { unsafe { &mut *self.vals } }
     #[inline(always)] #[allow(clippy::mut_from_ref)]
     fn lk(&self) -> &mut vs::LockState { unsafe { &mut *self.lockp } }
+    #[inline(always)] fn typed(&self) -> bool { !self.tvals.get().is_null() }
+    #[inline(always)] #[allow(clippy::mut_from_ref)]
+    fn tv(&self) -> &mut [VCell<V>; CAP] { unsafe { &mut *self.tvals.get() } }
+    #[inline(always)] unsafe fn vref(&self, i: usize) -> &V { if self.typed() { self.tv()[i].0.as_ref().unwrap_unchecked() } else { self.vals()[i].assume_init_ref() } }
+    #[inline(always)] #[allow(clippy::mut_from_ref)]
+    unsafe fn vmut(&self, i: usize) -> &mut V { if self.typed() { self.tv()[i].0.as_mut().unwrap_unchecked() } else { self.vals()[i].assume_init_mut() } }
+    #[inline(always)] unsafe fn vread(&self, i: usize) -> V { if self.typed() { self.tv()[i].0.take().unwrap_unchecked() } else { self.vals()[i].assume_init_read() } }
+    #[inline(always)] fn vwrite(&self, i: usize, v: V) { if self.typed() { core::mem::forget(core::mem::replace(&mut self.tv()[i].0, Some(v))); } else { self.vals()[i] = MaybeUninit::new(v); } }
+    /// keep the value cells in caller-owned, typed stack memory; call before anything is inserted
+    pub fn vk_use_value_storage(&self, p: *mut [VCell<V>; CAP]) { self.tvals.set(p); }
 }
 
 impl<K: Eq + Hash, V, S> DashMap<K, V, S> {
@@ -66,6 +84,7 @@ impl<K: Eq + Hash, V, S> DashMap<K, V, S> {
             used: Box::into_raw(Box::new([0u64; CAP])),
             keys: Box::into_raw(Box::<[MaybeUninit<K>; CAP]>::new_uninit()) as *mut [MaybeUninit<K>; CAP],
             vals: Box::into_raw(Box::<[MaybeUninit<V>; CAP]>::new_uninit()) as *mut [MaybeUninit<V>; CAP],
+            tvals: core::cell::Cell::new(core::ptr::null_mut()),
             lockp: vs::new_lock_word(),
             lookupsp: Box::into_raw(Box::new(0u64)),
             _s: PhantomData,
@@ -99,20 +118,20 @@ impl<K: Eq + Hash, V, S> DashMap<K, V, S> {
     pub fn vk_lookups(&self) -> u32 { unsafe { *self.lookupsp as u32 } }
     pub fn vk_len(&self) -> usize { let used = self.used(); let mut n = 0; let mut i = 0; while i < CAP { if used[i] != 0 { n += 1; } i += 1; } n }
     pub fn vk_slot(&self, i: usize) -> Option<(&K, &V)> {
-        if i < CAP && self.used()[i] != 0 { Some(unsafe { (self.keys()[i].assume_init_ref(), self.vals()[i].assume_init_ref()) }) } else { None }
+        if i < CAP && self.used()[i] != 0 { Some(unsafe { (self.keys()[i].assume_init_ref(), self.vref(i)) }) } else { None }
     }
     /// place an entry in a given slot without taking locks or schedule points (state construction)
     pub fn vk_place(&self, i: usize, k: K, v: V) {
         self.used()[i] = 1;
         self.keys()[i] = MaybeUninit::new(k);
-        self.vals()[i] = MaybeUninit::new(v);
+        self.vwrite(i, v);
     }
     pub fn vk_peek<Q>(&self, key: &Q) -> Option<&V> where K: Borrow<Q>, Q: Eq + ?Sized {
-        let (used, keys, vals) = (self.used(), self.keys(), self.vals());
+        let (used, keys) = (self.used(), self.keys());
         let mut r = None;
         let mut i = 0;
         while i < CAP {
-            if r.is_none() && used[i] != 0 && unsafe { keys[i].assume_init_ref() }.borrow() == key { r = Some(unsafe { vals[i].assume_init_ref() }); }
+            if r.is_none() && used[i] != 0 && unsafe { keys[i].assume_init_ref() }.borrow() == key { r = Some(unsafe { self.vref(i) }); }
             i += 1;
         }
         r
@@ -125,8 +144,8 @@ impl<K: Eq + Hash, V, S> DashMap<K, V, S> {
         vs::acquire_exclusive(self.lk());
         let idx = self.find(&key);
         let old = if idx < CAP {
-            let old = unsafe { self.vals()[idx].assume_init_read() };
-            self.vals()[idx] = MaybeUninit::new(value);
+            let old = unsafe { self.vread(idx) };
+            self.vwrite(idx, value);
             core::mem::forget(key);
             Some(old)
         } else {
@@ -135,7 +154,7 @@ impl<K: Eq + Hash, V, S> DashMap<K, V, S> {
             let f = if f >= CAP { 0 } else { f };
             self.used()[f] = 1;
             self.keys()[f] = MaybeUninit::new(key);
-            self.vals()[f] = MaybeUninit::new(value);
+            self.vwrite(f, value);
             None
         };
         vs::release_exclusive(self.lk());
@@ -148,7 +167,7 @@ impl<K: Eq + Hash, V, S> DashMap<K, V, S> {
         let idx = self.find(key);
         let r = if idx < CAP {
             self.used()[idx] = 0;
-            Some(unsafe { (self.keys()[idx].assume_init_read(), self.vals()[idx].assume_init_read()) })
+            Some(unsafe { (self.keys()[idx].assume_init_read(), self.vread(idx)) })
         } else { None };
         vs::release_exclusive(self.lk());
         r
@@ -158,9 +177,9 @@ impl<K: Eq + Hash, V, S> DashMap<K, V, S> {
         vs::schedule_point(vs::S_MAP_OP);
         vs::acquire_exclusive(self.lk());
         let idx = self.find(key);
-        let r = if idx < CAP && f(unsafe { self.keys()[idx].assume_init_ref() }, unsafe { self.vals()[idx].assume_init_ref() }) {
+        let r = if idx < CAP && f(unsafe { self.keys()[idx].assume_init_ref() }, unsafe { self.vref(idx) }) {
             self.used()[idx] = 0;
-            Some(unsafe { (self.keys()[idx].assume_init_read(), self.vals()[idx].assume_init_read()) })
+            Some(unsafe { (self.keys()[idx].assume_init_read(), self.vread(idx)) })
         } else { None };
         vs::release_exclusive(self.lk());
         r
@@ -171,7 +190,7 @@ impl<K: Eq + Hash, V, S> DashMap<K, V, S> {
         vs::acquire_exclusive(self.lk());
         let mut i = 0;
         while i < CAP {
-            if self.used()[i] != 0 && !f(unsafe { self.keys()[i].assume_init_ref() }, unsafe { self.vals()[i].assume_init_mut() }) { self.used()[i] = 0; }
+            if self.used()[i] != 0 && !f(unsafe { self.keys()[i].assume_init_ref() }, unsafe { self.vmut(i) }) { self.used()[i] = 0; }
             i += 1;
         }
         vs::release_exclusive(self.lk());
@@ -280,21 +299,21 @@ pub mod mapref {
                 let f = if f >= CAP { 0 } else { f };
                 self.map.used()[f] = 1;
                 self.map.keys()[f] = MaybeUninit::new(self.key);
-                self.map.vals()[f] = MaybeUninit::new(value);
+                self.map.vwrite(f, value);
                 RefMut { map: self.map, idx: f }
             }
         }
         impl<'a, K: Eq + Hash, V, S> OccupiedEntry<'a, K, V, S> {
             pub fn into_ref(self) -> RefMut<'a, K, V, S> { RefMut { map: self.map, idx: self.idx } }
-            pub fn get(&self) -> &V { unsafe { (*self.map.vals)[self.idx].assume_init_ref() } }
-            pub fn insert(&mut self, value: V) -> V { core::mem::replace(unsafe { (*self.map.vals)[self.idx].assume_init_mut() }, value) }
+            pub fn get(&self) -> &V { unsafe { self.map.vref(self.idx) } }
+            pub fn insert(&mut self, value: V) -> V { core::mem::replace(unsafe { self.map.vmut(self.idx) }, value) }
         }
         impl<'a, K: Eq + Hash, V, S> Entry<'a, K, V, S> {
             pub fn or_insert(self, value: V) -> RefMut<'a, K, V, S> { match self { Entry::Occupied(o) => o.into_ref(), Entry::Vacant(v) => v.insert(value) } }
             pub fn or_insert_with(self, f: impl FnOnce() -> V) -> RefMut<'a, K, V, S> { match self { Entry::Occupied(o) => o.into_ref(), Entry::Vacant(v) => v.insert(f()) } }
             pub fn or_default(self) -> RefMut<'a, K, V, S> where V: Default { self.or_insert_with(V::default) }
             pub fn and_modify(self, f: impl FnOnce(&mut V)) -> Self {
-                if let Entry::Occupied(o) = &self { f(unsafe { (*o.map.vals)[o.idx].assume_init_mut() }); }
+                if let Entry::Occupied(o) = &self { f(unsafe { o.map.vmut(o.idx) }); }
                 self
             }
         }
@@ -304,7 +323,7 @@ pub mod mapref {
         pub struct Ref<'a, K, V, S = RandomState> { pub(crate) map: &'a DashMap<K, V, S>, pub(crate) idx: usize }
         impl<'a, K: Eq + Hash, V, S> Ref<'a, K, V, S> {
             pub fn key(&self) -> &K { unsafe { (*self.map.keys)[self.idx].assume_init_ref() } }
-            pub fn value(&self) -> &V { unsafe { (*self.map.vals)[self.idx].assume_init_ref() } }
+            pub fn value(&self) -> &V { unsafe { self.map.vref(self.idx) } }
             pub fn pair(&self) -> (&K, &V) { (self.key(), self.value()) }
         }
         impl<'a, K: Eq + Hash, V, S> Deref for Ref<'a, K, V, S> { type Target = V; fn deref(&self) -> &V { self.value() } }
@@ -314,8 +333,8 @@ pub mod mapref {
         pub struct RefMut<'a, K, V, S = RandomState> { pub(crate) map: &'a DashMap<K, V, S>, pub(crate) idx: usize }
         impl<'a, K: Eq + Hash, V, S> RefMut<'a, K, V, S> {
             pub fn key(&self) -> &K { unsafe { (*self.map.keys)[self.idx].assume_init_ref() } }
-            pub fn value(&self) -> &V { unsafe { (*self.map.vals)[self.idx].assume_init_ref() } }
-            pub fn value_mut(&mut self) -> &mut V { unsafe { (*self.map.vals)[self.idx].assume_init_mut() } }
+            pub fn value(&self) -> &V { unsafe { self.map.vref(self.idx) } }
+            pub fn value_mut(&mut self) -> &mut V { unsafe { self.map.vmut(self.idx) } }
             pub fn pair(&self) -> (&K, &V) { (self.key(), self.value()) }
         }
         impl<'a, K: Eq + Hash, V, S> Deref for RefMut<'a, K, V, S> { type Target = V; fn deref(&self) -> &V { self.value() } }
@@ -330,7 +349,7 @@ pub mod mapref {
         pub struct RefMulti<'a, K, V, S = RandomState> { pub(crate) map: &'a DashMap<K, V, S>, pub(crate) idx: usize }
         impl<'a, K: Eq + Hash, V, S> RefMulti<'a, K, V, S> {
             pub fn key(&self) -> &K { unsafe { (*self.map.keys)[self.idx].assume_init_ref() } }
-            pub fn value(&self) -> &V { unsafe { (*self.map.vals)[self.idx].assume_init_ref() } }
+            pub fn value(&self) -> &V { unsafe { self.map.vref(self.idx) } }
             pub fn pair(&self) -> (&K, &V) { (self.key(), self.value()) }
         }
         impl<'a, K: Eq + Hash, V, S> Deref for RefMulti<'a, K, V, S> { type Target = V; fn deref(&self) -> &V { self.value() } }
